@@ -104,6 +104,63 @@ Definition os_len (o : ostr) : res N := res_map (@len N) (os_octets o).
 Definition os_is_empty (o : ostr) : res bool :=
   res_map (fun l => match l with [] => true | _ => false end) (os_octets o).
 
+(* ---------- the value as a decoding source (OctetStringSource) ---------- *)
+(* OctetStringSource::next_current: the content of the first primitive segment found in the remainder and
+   what is left after it; None when the remainder is used up. Headers are read in BER mode and unwrapped
+   (Panic); anything but OCTET STRING / end-of-contents is unreachable!() (Panic) *)
+Fixpoint seg_next (fuel : nat) (d : list N) : res (option (list N * list N)) :=
+  match fuel with
+  | O => NoFuel
+  | S f =>
+    match tag_take_opt_from (pure_src d None) with
+    | (Ok None, _) => Ok None
+    | (Ok (Some (t, k)), s1) =>
+      match length_take_from Ber s1 with
+      | (Ok l, s2) =>
+        if tag_eqb t T_OCTET_STRING then
+          if k then seg_next f (rem s2) else
+          match l with
+          | Definite_ n => if len (rem s2) <? n then Panic
+                           else Ok (Some (firstN n (rem s2), skipN n (rem s2)))
+          | Indefinite_ => Panic
+          end
+        else if tag_eqb t END_OF_VALUE then seg_next f (rem s2)
+        else Panic
+      | _ => Panic
+      end
+    | _ => Panic
+    end
+  end.
+
+Record oss := mkOss { ocur : list N; orem : list N }.
+Definition oss_new (o : ostr) : oss :=
+  match o with OPrim b => mkOss b [] | OCons d => mkOss [] d end.
+
+(* the loop of OctetStringSource::request: append segments until `current` is long enough or none is left *)
+Fixpoint oss_fill (fuel : nat) (want : N) (cur remd : list N) : res oss :=
+  match fuel with
+  | O => NoFuel
+  | S f =>
+    if want <=? len cur then Ok (mkOss cur remd) else
+    match seg_next (S (length remd)) remd with
+    | Ok (Some (b, r)) => oss_fill f want (cur ++ b) r
+    | Ok None => Ok (mkOss cur [])
+    | CErr => CErr | SErr => SErr | Panic => Panic | NoFuel => NoFuel
+    end
+  end.
+(* OctetStringSource::request: the new state and the number of octets available (current.len()) *)
+Definition oss_request (want : N) (st : oss) : res (N * oss) :=
+  if (len (ocur st) <? want) && negb (len (orem st) =? 0) then
+    match oss_fill (S (length (orem st))) want (ocur st) (orem st) with
+    | Ok st' => Ok (len (ocur st'), st')
+    | CErr => CErr | SErr => SErr | Panic => Panic | NoFuel => NoFuel
+    end
+  else Ok (len (ocur st), st).
+(* slice() = current; advance(n): assert!(n <= current.len()) *)
+Definition oss_slice (st : oss) : list N := ocur st.
+Definition oss_advance (n : N) (st : oss) : res oss :=
+  if len (ocur st) <? n then Panic else Ok (mkOss (skipN n (ocur st)) (orem st)).
+
 (* ---------- comparison and hashing (over the octet iterator) ---------- *)
 Fixpoint lexc (a b : list N) : comparison :=
   match a, b with
